@@ -142,6 +142,9 @@ def run_check(pc: PropCheck, tier: str, seed: int) -> int:
     workdir.mkdir(parents=True, exist_ok=True)
     for old in workdir.glob("cases_*.v*"):
         old.unlink()
+    if common.REPLAYS.exists():
+        for old in common.REPLAYS.glob(pc.id + "-*.json"):
+            old.unlink()
 
     # ---------------- A/B: tie by translation + proofs
     ok, log = common.coq_build(clean=(tier == "thorough" and os.environ.get("VERIF_CLEAN") == "1"),
